@@ -9,6 +9,7 @@ operations with process deaths, and every point between two file-system operatio
 import LinVerif.Lemmas.C01Reach
 import LinVerif.Lemmas.C01Cleanup
 import LinVerif.Lemmas.C01Pending
+import LinVerif.Lemmas.C01Entries
 import LinVerif.Generated.C01
 
 namespace LinVerif.Props.C01
@@ -243,6 +244,21 @@ theorem log_roundtrip (l : Log) : decodeLog l.tag (encodeLog l) = some l := by
 /-- editLog.unmarshal ∘ editLog.marshal = id -/
 theorem editlog_roundtrip (el : EditLog) : unmarshal (marshal el) = some el := unmarshal_marshal el
 
+/-- **entries_roundtrip.** The manifest file's entry framing (pkg/bufioutil): reading back the file
+written by the entry writer for ANY list of records returns exactly those records and ends cleanly —
+for every total size and every read-buffer size `B ≥ 1`, i.e. wherever the reader's buffer boundaries
+fall inside the entries (io.ReadFull keeps reading across a boundary; a single Read would come back
+short). This is what lets the disk model hold a manifest as its list of records. -/
+theorem entries_roundtrip (B : Nat) (hB : 1 ≤ B) (recs : List Bytes) :
+    readEntries B (writeEntries recs) = (recs, true) :=
+  readEntriesF_spec B hB recs ⟨[], writeEntries recs⟩ _ (by simp [RState.stream]) (Nat.le_refl _)
+
+/-- the manifest of a store: records of edit logs, framed as entries, read back and decoded -/
+theorem manifest_file_roundtrip (B : Nat) (hB : 1 ≤ B) (els : List EditLog) :
+    (readEntries B (writeEntries (els.map marshal))).1.map unmarshal = els.map some := by
+  rw [entries_roundtrip B hB]
+  simp [List.map_map, Function.comp_def, unmarshal_marshal]
+
 /-! ## 5. ties to the regenerated facts (a changed constant / formula / step order breaks these) -/
 
 theorem tie_log_tags :
@@ -299,6 +315,18 @@ theorem tie_builder_close_error :
     Generated.C01.builderCloseResultNames = ["err"] ∧ "err" ∈ Generated.C01.builderCloseDeferAssigned ∧
     "err" ∉ Generated.C01.builderCloseVarDecls ∧ Generated.C01.builderCloseDeferCalls = ["writer.Close"] := by decide
 
+/-- bufioEntryReader.Next reads the length with binary.ReadUvarint and the content with io.ReadFull
+(no bare `Read` / `ReadByte` on the buffered reader); bufioEntryWriter.Write puts the uvarint
+length, then the content; both buffers have the size the design assumes -/
+theorem tie_entry_reader :
+    only ["binary.ReadUvarint", "io.ReadFull", "r.Read", "r.ReadByte", "io.ReadAtLeast"] Generated.C01.entryReaderNextCalls
+      = entryReaderSteps := by decide
+theorem tie_entry_writer :
+    only ["binary.PutUvarint", "w.Write", "f.Write"] Generated.C01.entryWriterWriteCalls = entryWriterSteps ∧
+    Generated.C01.entryWriterSyncCalls = ["w.Flush", "f.Sync"] := by decide
+theorem tie_buffer_sizes :
+    Generated.C01.defaultReadBufferSize = 262144 ∧ Generated.C01.defaultWriteBufferSize = 262144 := by decide
+
 /-- the model's initJournal trace is literally driven by the step list -/
 theorem initJournal_trace (vs : VS) :
     initJournalOps vs = FsOp.createManifest vs.manifestNo ::
@@ -349,6 +377,14 @@ theorem torn_tail_open_deletes_live_manifest :
 /-- after that, every further open fails ("create journal reader error"): the store is lost. -/
 theorem torn_tail_store_lost :
     (openStore ⟨2, []⟩ (applyFsList tornDisk (openStore ⟨2, []⟩ tornDisk).2)).1 = none := by decide
+
+/-- why io.ReadFull matters: with a single `Read` per entry (what a buffered reader looks like it
+could do) an entry that straddles a buffer boundary comes back short and the next entry is misframed.
+Buffer of 4 bytes, two entries of 6 and 2 bytes. -/
+theorem single_read_misframes :
+    readEntries 4 (writeEntries [[1, 2, 3, 4, 5, 6], [7, 8]]) = ([[1, 2, 3, 4, 5, 6], [7, 8]], true) ∧
+    readEntriesShortF 4 20 ⟨[], writeEntries [[1, 2, 3, 4, 5, 6], [7, 8]]⟩ ≠ ([[1, 2, 3, 4, 5, 6], [7, 8]], true) := by
+  decide
 
 end Observations
 
